@@ -24,6 +24,7 @@ package main
 import (
 	"bytes"
 	"context"
+	"encoding/base64"
 	"fmt"
 	"io/ioutil"
 	stdhttp "net/http"
@@ -271,7 +272,7 @@ var c12kindNames = map[int]string{
 	11: "thrift.GetByPath", 12: "thrift.PathNode.Load+Marshal", 13: "thrift.MarshalTo", 14: "thrift.descriptor-lookups",
 	15: "proto.GetByPath", 16: "proto.PathNode.Load+Marshal", 17: "proto.MarshalTo", 18: "proto.descriptor-lookups",
 	19: "thrift.BinaryProtocol(pooled).WriteAnyWithDesc", 20: "thrift.ReadAnyWithDesc", 21: "thrift.Skip",
-	22: "j2t.Do(http-mapped, ctx request)",
+	22: "j2t.Do(http-mapped, ctx request)", 23: "j2t.Do(http-mapped, ONE request object shared by all goroutines)",
 }
 
 func c12msg(err error) string {
@@ -400,7 +401,8 @@ type c12world struct {
 	oracle   []c12out
 	dumps    []func() []byte // descriptor dumps
 	dump0    [][]byte
-	unstable int // ops whose two alone-runs differed (dropped)
+	unstable int      // ops whose two alone-runs differed (dropped)
+	refresh  []func() // run by the main goroutine before every round (fresh shared request objects)
 }
 
 // descriptor dumps are taken when the descriptor is registered, i.e. before any operation has seen it
@@ -929,6 +931,53 @@ service GSvc {
 				})
 			}
 		}
+		// ONE *HTTPRequest per url shared by all goroutines of a round (a request object is an input like any other: the
+		// getters used by the http mapping must not write to it). A new object is made before every round, so that its
+		// first use happens concurrently.
+		urls := []string{"http://localhost/gw?A=fromquery&B=qb&s=qs&P=qp&R=9", "http://localhost/gw?X=qx&s=other"}
+		shared := make([]*dhttp.HTTPRequest, len(urls))
+		mkShared := func() {
+			for i, u := range urls {
+				req, err := dhttp.NewHTTPRequestFromUrl("GET", u, nil, dhttp.Param{Key: "path", Value: "pp"})
+				if err != nil {
+					die("C12: shared request: %v", err)
+				}
+				req.Request.Header.Set("t", "ht")
+				req.Request.AddCookie(&stdhttp.Cookie{Name: "cookie", Value: "1.5"})
+				shared[i] = req
+			}
+		}
+		mkShared()
+		w.refresh = append(w.refresh, mkShared)
+		for di, gd := range gdocs {
+			gd := gd
+			js := w.in.add(fmt.Sprintf("gw-shared-json-%d", di), []byte(gd.js))
+			for ui := range urls {
+				ui := ui
+				cv := gwcvs[(di+ui)%len(gwcvs)]
+				w.addOp(23, fmt.Sprintf("j2t.Do(http-mapped, shared request %d) doc%d", ui, di), false, func() c12out {
+					hctx := context.WithValue(ctx, conv.CtxKeyHTTPRequest, shared[ui])
+					out, err := cv.Do(hctx, gd.desc, js)
+					return c12out{data: out, err: err != nil, keep: [][]byte{out}, msg: c12msg(err)}
+				})
+			}
+		}
+	}
+
+	// large base64 payloads (765, 768, 1500, 6000 raw bytes: around and above 1024 characters of text) in binary fields:
+	// decoders must not work in place on the caller's JSON text
+	for _, n := range []int{765, 768, 1500, 6000} {
+		n := n
+		raw := r.bytes(n)
+		b64 := base64.StdEncoding.EncodeToString(raw)
+		js := w.in.add(fmt.Sprintf("thrift-json-b64-%d", n), []byte(fmt.Sprintf(`{"Path":"p","Inner":{"Bin":"%s","S":"after","LI":[{"Bin":"%s"}]},"Big":1}`, b64, b64)))
+		for ci := range j2tcvs[:2] {
+			cv := j2tcvs[ci]
+			w.addOp(1, fmt.Sprintf("j2t.Do b64-%d opt%d", n, ci), false, func() c12out {
+				out, err := cv.Do(ctx, reqDesc, js)
+				return c12out{data: out, err: err != nil, keep: [][]byte{out}, msg: c12msg(err)}
+			})
+		}
 	}
 
 	// t2j HTTP: a REPLY message around a Resp struct (built alone with j2t on the Resp descriptor)
@@ -1060,6 +1109,10 @@ service GSvc {
 	}
 	for d := 0; d < 3; d++ {
 		pdocs = append(pdocs, pdoc{pNest, c12nestJSON(r, 3), true})
+	}
+	for _, n := range []int{765, 768, 1500, 6000} {
+		b64 := base64.StdEncoding.EncodeToString(r.bytes(n))
+		pdocs = append(pdocs, pdoc{pReq, fmt.Sprintf(`{"msg":"b64-%d","code":1,"inner":{"bin":"%s","s":"after","lin":[{"bin":"%s","s":"x"}],"msin":{"k":{"bin":"%s"}}},"subfix":1.5}`, n, b64, b64, b64), false})
 	}
 	for d, pd := range pdocs {
 		desc := pd.desc
@@ -1239,6 +1292,9 @@ func (w *c12world) round(r *rng, idx int, seed uint64, G, P, perG int, mix []int
 	sort.Ints(ks)
 	fmt.Fprintf(os.Stderr, "C12-ROUND %d seed=%d G=%d P=%d calls=%d mix_kinds=%v mix_ops=%d\n", idx, seed, G, P, G*perG, ks, len(mix))
 	runtime.GOMAXPROCS(P)
+	for _, f := range w.refresh {
+		f()
+	}
 	stats := make([]map[int]*c12kindStat, G)
 	helds := make([][]c12held, G)
 	var wg sync.WaitGroup
@@ -1493,6 +1549,60 @@ service Svc { Req M(1: Req req) }
 	}
 }
 
+// one HTTPRequest wrapper REUSED for a second request (the embedded *http.Request swapped, or its URL changed): the second
+// conversion must see the second request, i.e. give what a fresh wrapper around the second request gives
+func c12requestReuse() {
+	ctx := context.Background()
+	const idl = `namespace go c12ru
+struct Q {
+    1: required string A (api.query = "a"),
+    2: optional string B (api.query = "b"),
+    3: optional string H (api.header = "h"),
+    4: optional string C (api.cookie = "c"),
+}
+service S { string M(1: Q req) }
+`
+	svc, err := thrift.Options{}.NewDescritorFromContent(ctx, "c12ru.thrift", idl, map[string]string{}, false)
+	if err != nil {
+		return
+	}
+	desc := svc.Functions()["M"].Request().Struct().FieldById(1).Type()
+	cv := j2t.NewBinaryConv(conv.Options{EnableHttpMapping: true, ReadHttpValueFallback: true})
+	mk := func(u, h, c string) *dhttp.HTTPRequest {
+		req, err := dhttp.NewHTTPRequestFromUrl("GET", u, nil)
+		if err != nil {
+			die("C12: reuse request: %v", err)
+		}
+		req.Request.Header.Set("h", h)
+		req.Request.AddCookie(&stdhttp.Cookie{Name: "c", Value: c})
+		return req
+	}
+	do := func(req *dhttp.HTTPRequest) []byte {
+		var res []byte
+		noPanic(func() {
+			o, err := cv.Do(context.WithValue(ctx, conv.CtxKeyHTTPRequest, req), desc, []byte(`{}`))
+			if err != nil {
+				res = []byte("error")
+			} else {
+				res = append([]byte("ok:"), o...)
+			}
+		})
+		return res
+	}
+	u1, u2 := "http://localhost/x?a=first&b=one", "http://localhost/x?a=second&b=two"
+	// variant 1: the embedded *http.Request is replaced
+	w1 := mk(u1, "h1", "c1")
+	first := do(w1)
+	w1.Request = mk(u2, "h2", "c2").Request
+	out.emit(1207, fi(1), fx(do(w1)), fx(do(mk(u2, "h2", "c2"))), fx(first))
+	// variant 2: the URL of the embedded request is changed in place
+	w2 := mk(u1, "h1", "c1")
+	first = do(w2)
+	w2.Request.URL.RawQuery = "a=second&b=two"
+	w2.Request.Header.Set("h", "h2")
+	out.emit(1207, fi(2), fx(do(w2)), fx(do(mk(u2, "h2", "c1"))), fx(first))
+}
+
 // error exits: after K failing calls of one kind in a row, successful calls still give the oracle result
 func (w *c12world) errorExits(r *rng) {
 	byKind := map[int][]int{}
@@ -1539,8 +1649,31 @@ func (w *c12world) errorExits(r *rng) {
 func genC12(r *rng, n int) {
 	seed := r.s
 	w := c12buildWorld(r.fork())
+	// the sequential phase (fixtures + every operation alone, twice) must have left inputs and descriptors alone and
+	// every operation must have returned the same thing twice
+	seqInputsChanged := false
+	{
+		badIn := w.in.changed()
+		badDesc := w.descsChanged()
+		seqInputsChanged = len(badIn) > 0
+		for i, b := range badIn {
+			if i < 6 {
+				c12report("C12-MISMATCH what=input phase=sequential input=%q (input bytes changed by a call run alone)", b)
+			}
+		}
+		out.emit(1206, fi(len(badIn)), fi(w.unstable), fi(len(badDesc)))
+		out.w.Flush() // a later fault on a read-only input must not lose this line
+		if len(badIn) > 0 {
+			for i := range w.in.live {
+				copy(w.in.live[i], w.in.copy[i])
+			}
+		}
+	}
+	c12requestReuse()
 	prot := 0
-	if os.Getenv("C12_NO_MPROTECT") == "" {
+	// (when a call run alone already wrote into its input the rounds go on with writable inputs: they then report through
+	// the before/after comparison instead of stopping at the first fault)
+	if os.Getenv("C12_NO_MPROTECT") == "" && !seqInputsChanged {
 		prot = c12mem.protect()
 	}
 	fmt.Fprintf(os.Stderr, "C12-WORLD ops=%d inputs=%d descriptor_dumps=%d unstable_alone=%d readonly_input_chunks=%d/%d\n", len(w.ops), len(w.in.live), len(w.dumps), w.unstable, prot, len(c12mem.chunks))
@@ -1586,7 +1719,7 @@ func genC12(r *rng, n int) {
 			// several descriptors interleaved on every goroutine, so that a pooled state machine left behind by a failing
 			// conversion is picked up by a valid one
 			for i, op := range w.ops {
-				if op.kind == 22 || op.kind == 5 {
+				if op.kind == 22 || op.kind == 23 || op.kind == 5 {
 					mix = append(mix, i)
 				}
 			}
@@ -1597,7 +1730,7 @@ func genC12(r *rng, n int) {
 		} else {
 			sel := map[int]bool{}
 			for len(sel) < 3+r.intn(5) {
-				sel[1+r.intn(22)] = true
+				sel[1+r.intn(23)] = true
 			}
 			for i, op := range w.ops {
 				if sel[op.kind] {
